@@ -37,3 +37,119 @@ Theorem wakeup_release : forall cfg alloc oldest init t0 s, reachable cfg alloc 
   (toRelease (s_pbl s) = [] -> release_chan_closed (s_pbl s) = false).
 Proof. exact wakeup_release_reach. Qed.
 Print Assumptions wakeup_release.
+
+(** No missed notification: a channel a loop still holds is the current one
+    or is already closed (stale channels are closed); hence a loop never
+    waits on an open channel while work is pending. *)
+Theorem stale_channels_closed_and_no_missed_wakeup :
+  forall cfg alloc oldest init t0 s, reachable cfg alloc oldest init t0 s ->
+  (forall c, s_r s = RWait c -> c <> get_release_wakeup (s_pbl s) -> is_closed (heap (s_pbl s)) c = true) /\
+  (forall c, s_p s = PSelect c \/ s_p s = PIdle c -> c <> get_put_wakeup (s_pbl s) ->
+             is_closed (heap (s_pbl s)) c = true) /\
+  (forall c, s_r s = RWait c -> toRelease (s_pbl s) <> nil -> is_closed (heap (s_pbl s)) c = true) /\
+  (forall c, s_p s = PSelect c \/ s_p s = PIdle c ->
+             synchronizedEpochs (s_pbl s) < length (epochSeeds (s_pbl s)) ->
+             is_closed (heap (s_pbl s)) c = true).
+Proof. exact no_missed_wakeup_reach. Qed.
+Print Assumptions stale_channels_closed_and_no_missed_wakeup.
+
+(** No stall (release): whenever a popped block awaits release, the release
+    loop can step on its own, or waits for its WritePersistentState call, or
+    sleeps after a failed write, or waits for storeLock held by the put loop
+    which is then runnable or in its own I/O call. *)
+Theorem release_never_stalls : forall cfg alloc oldest init t0 s, reachable cfg alloc oldest init t0 s ->
+  toRelease (s_pbl s) <> nil -> r_progress cfg s.
+Proof. exact release_progress_reach. Qed.
+Print Assumptions release_never_stalls.
+
+(** No stall (put): whenever an epoch is not yet synchronized, the put loop
+    can step on its own, waits for I/O, waits for a timer (interval or
+    retry), has returned (shutdown), or waits for storeLock held by the
+    release loop which is then runnable or in its I/O call. *)
+Theorem put_never_stalls : forall cfg alloc oldest init t0 s, reachable cfg alloc oldest init t0 s ->
+  synchronizedEpochs (s_pbl s) < length (epochSeeds (s_pbl s)) -> p_progress cfg s.
+Proof. exact put_progress_reach. Qed.
+Print Assumptions put_never_stalls.
+
+(** The release loop contains no minimum-interval wait: its step function is
+    the same for every minimumEpochInterval (with [release_never_stalls]: it
+    is never blocked behind the put loop's interval timer either, because the
+    put loop holds storeLock only inside writePersistentState). *)
+Theorem release_not_delayed_by_interval : forall cfg cfg' a s,
+  c_retry cfg = c_retry cfg' -> rstep cfg a s = rstep cfg' a s.
+Proof. exact release_independent_of_interval. Qed.
+Print Assumptions release_not_delayed_by_interval.
+
+(** Consecutive sync schedule times (timer expiries recorded in
+    lastSynchronizationTime, i.e. syncs started while running) are at least
+    minimumEpochInterval apart; the first at least one interval after t0. *)
+Theorem min_interval : forall cfg alloc oldest init t0 s, reachable cfg alloc oldest init t0 s ->
+  gaps_ok (c_interval cfg) t0 (s_sched s).
+Proof. exact min_interval_reach. Qed.
+Print Assumptions min_interval.
+
+(** Transient failures are retried: a failed state write releases storeLock,
+    sleeps errorRetryInterval and re-enters writePersistentState; a failed
+    data sync sleeps and calls the DataSyncer again (without a new
+    NotifySyncStarting). *)
+Theorem failed_state_write_is_retried : forall cfg s st t,
+  s_r s = RW (WWriting st) ->
+  exists s1, step cfg s (EStep TR (mkAns false t)) = Some (Ok s1)
+    /\ s_r s1 = RW (WSleep (s_now s + c_retry cfg)) /\ s_store s1 = None /\ s_pbl s1 = s_pbl s
+    /\ (forall s2 a, step cfg s1 (EStep TR a) = Some (Ok s2) -> s_r s2 = RW WAcquire).
+Proof. exact failed_write_is_retried. Qed.
+Print Assumptions failed_state_write_is_retried.
+
+Theorem failed_data_sync_is_retried : forall cfg s keep final t,
+  s_p s = PSyncing keep final ->
+  exists s1, step cfg s (EStep TP (mkAns false t)) = Some (Ok s1)
+    /\ s_p s1 = PSyncSleep keep final (s_now s + c_retry cfg) /\ s_pbl s1 = s_pbl s
+    /\ (forall s2 a, step cfg s1 (EStep TP a) = Some (Ok s2) -> s_p s2 = PSyncing keep final).
+Proof. exact failed_sync_is_retried. Qed.
+Print Assumptions failed_data_sync_is_retried.
+
+(** NOT PROVED (kept as the full statements; what is proved instead is the
+    `_never_stalls` pair above, i.e. the "never disabled while work is
+    pending" half of the ranking argument, plus the retry theorems):
+
+    put_rank / release_rank : sys -> nat -> nat  (target = number of blocks to be
+    released resp. absolute epoch to be committed) with
+      (a) every own non-failure step of the loop decreases the rank when it is > 0;
+      (b) a failed I/O step increases it by at most one loop length K and is followed by a retry;
+      (c) steps of other threads never increase it;
+      (d) rank 0 <-> a state write omitting the released blocks (they are in releasedLog)
+          resp. covering the epoch has completed ([s_writes]);
+      liveness : forall tr, run cfg s tr = Some (Ok s') ->
+          (number of own non-failure steps in tr) >= rank s + K * (failures in tr) -> rank s' = 0
+      (weak fairness and finitely many failures as hypotheses), and
+      upload_commit_bound (the state write starts no later than max(t, last)+interval plus I/O steps).
+    The correspondence monitor checks the observable consequence on every
+    implementation run (clauses 1, 4, 5, 6 of Run/R07.v: pending work with an
+    idle loop; completed write not covering an acknowledged upload). *)
+
+(** Non-vacuity: an empty store; PushBack, Put + finalizer (creates epoch 0,
+    closes the put channel), interval elapses, timer fires, sync ok, state
+    write ok: the write covers the epoch, the put channel is open again;
+    then PopFront and the release loop's write releases the block. *)
+Example commit_and_release_example :
+  let cfg := mkConfig 10 3 in
+  let s0 := init_sys (fst (pbl_new (fun _ _ => false) 0 nil)) 0 in
+  let ok := EStep TP (mkAns true 0) in
+  let r := EStep TR (mkAns true 0) in
+  let tr := (r :: ok :: ok :: EPushBack (Some (0, 100)%Z) :: EPutStart 0 5 :: EFinalize 0 (Some 0%Z) 77
+             :: ok (* PIdle: channel closed -> timer now+10 *)
+             :: ETick 10 :: EStep TP (mkAns false 10) (* timer fires *)
+             :: ok (* NotifySyncStarting *) :: ok (* sync ok *) :: ok (* NotifySyncCompleted *)
+             :: ok (* storeLock *) :: ok (* GetPersistentState *) :: ok (* write ok *) :: ok (* written *)
+             :: EPopFront :: r :: r :: r :: r :: r :: nil)%list in
+  match run cfg s0 tr with
+  | Some (Ok s) =>
+      s_sched s = (10%N :: nil)%list
+      /\ map (fun w => (w_by w, w_state w)) (s_writes s)
+         = ((TR, (1%N, nil)) :: (TP, (0%N, (mkBstate (0, 100)%Z 5%Z (77%N :: nil) :: nil))) :: nil)%list
+      /\ releasedLog (s_pbl s) = ((0, 100)%Z :: nil)%list
+      /\ put_chan_closed (s_pbl s) = false /\ release_chan_closed (s_pbl s) = false
+      /\ length (ch_closed (heap (s_pbl s))) = 2
+  | _ => False
+  end.
+Proof. vm_compute. repeat split; reflexivity. Qed.
